@@ -297,7 +297,12 @@ type EnumFlow struct {
 	Res  EnumResolver
 	in   map[*ssa.BasicBlock]enumEnv
 	Mods func(call ssa.CallInstruction, fieldName string) bool // may the call store to a domain-typed field of that name?
+	// CellRes supplies the contents of a memory cell (by access path) that the
+	// function itself has no fact about, e.g. from the callers.
+	CellRes func(path string, root ssa.Value) (Set, bool)
 	Undecided []string
+	Done      bool // fixpoint finished (false while Run is in progress)
+	Unknown   bool // analysis was cut off (recursion depth): every query answers "anything"
 }
 
 // AccessPath gives a structural name to an address or value so that two
@@ -351,8 +356,34 @@ func (ef *EnumFlow) eval(env enumEnv, v ssa.Value) Set {
 		}
 	case *ssa.UnOp:
 		if x.Op == token.MUL {
-			if s, ok := env[AccessPath(x.X)]; ok {
+			path := AccessPath(x.X)
+			if s, ok := env[path]; ok {
 				return s
+			}
+			// two independent over-approximations: what the callers established
+			// about this cell, and what can be stored in the field at all
+			out := ef.D.Top() & ef.typeRange(v.Type())
+			if ef.CellRes != nil {
+				if s, ok := ef.CellRes(path, rootOf(x.X)); ok {
+					out &= s
+				}
+			}
+			if ef.Res != nil {
+				if s, ok := ef.Res(v); ok {
+					out &= s
+				}
+			}
+			return out
+		}
+	case *ssa.Call:
+		if path, root, ok := GetterPath(x); ok {
+			if s, ok := env[path]; ok {
+				return s
+			}
+			if ef.CellRes != nil {
+				if s, ok := ef.CellRes(path, root); ok {
+					return s
+				}
 			}
 		}
 	case *ssa.Phi:
@@ -418,7 +449,48 @@ func (ef *EnumFlow) setVal(env enumEnv, v ssa.Value, s Set) {
 		if x.Op == token.MUL {
 			env[AccessPath(x.X)] = s
 		}
+	case *ssa.Call:
+		if path, _, ok := GetterPath(x); ok {
+			env[path] = s
+		}
 	}
+}
+
+// GetterPath: c calls a function whose body just returns a field reachable
+// from its first parameter (e.g. (*Frame).messageType); returns the access
+// path of that field as seen from the caller.
+func GetterPath(c *ssa.Call) (string, ssa.Value, bool) {
+	g := c.Call.StaticCallee()
+	if g == nil || len(g.Blocks) != 1 || len(g.Params) == 0 || len(c.Call.Args) == 0 {
+		return "", nil, false
+	}
+	var ret *ssa.Return
+	for _, i := range g.Blocks[0].Instrs {
+		switch x := i.(type) {
+		case *ssa.Return:
+			ret = x
+		case *ssa.FieldAddr, *ssa.UnOp, *ssa.DebugRef:
+		default:
+			return "", nil, false
+		}
+	}
+	if ret == nil || len(ret.Results) != 1 {
+		return "", nil, false
+	}
+	ld, ok := ret.Results[0].(*ssa.UnOp)
+	if !ok || ld.Op != token.MUL {
+		return "", nil, false
+	}
+	if rootOf(ld.X) != ssa.Value(g.Params[0]) {
+		return "", nil, false
+	}
+	inner := AccessPath(ld.X)
+	prefix := "p:" + g.Params[0].Name()
+	if !strings.HasPrefix(inner, prefix) {
+		return "", nil, false
+	}
+	arg := c.Call.Args[0]
+	return AccessPath(arg) + strings.TrimPrefix(inner, prefix), rootOf(arg), true
 }
 
 func (ef *EnumFlow) refine(env enumEnv, cond ssa.Value, pol bool) (feasible bool) {
@@ -546,6 +618,7 @@ func (ef *EnumFlow) callMayWritePath(c ssa.CallInstruction, path string) bool {
 
 // Run computes the fixpoint.
 func (ef *EnumFlow) Run() {
+	defer func() { ef.Done = true }()
 	f := ef.F
 	ef.in = map[*ssa.BasicBlock]enumEnv{}
 	if len(f.Blocks) == 0 {
@@ -632,11 +705,17 @@ func (ef *EnumFlow) join(a, b enumEnv) (enumEnv, bool) {
 
 // Reachable reports whether block b is reachable given the enum facts.
 func (ef *EnumFlow) Reachable(b *ssa.BasicBlock) bool {
+	if ef.Unknown || !ef.Done {
+		return true
+	}
 	_, ok := ef.in[b]
 	return ok
 }
 
 func (ef *EnumFlow) envBefore(i ssa.Instruction) (enumEnv, bool) {
+	if ef.Unknown || !ef.Done {
+		return enumEnv{}, true
+	}
 	b := i.Block()
 	in, ok := ef.in[b]
 	if !ok {
@@ -661,6 +740,23 @@ func (ef *EnumFlow) ValueAt(v ssa.Value, i ssa.Instruction) (Set, bool) {
 	return ef.eval(env, v), true
 }
 
+// PathAt: possible contents of the memory cell named by path immediately before i.
+func (ef *EnumFlow) PathAt(path string, root ssa.Value, i ssa.Instruction) (Set, bool) {
+	env, ok := ef.envBefore(i)
+	if !ok {
+		return 0, false
+	}
+	if s, ok := env[path]; ok {
+		return s, true
+	}
+	if ef.CellRes != nil {
+		if s, ok := ef.CellRes(path, root); ok {
+			return s, true
+		}
+	}
+	return ef.D.Top(), true
+}
+
 // CellAt: possible contents of the memory cell at addr immediately before i.
 func (ef *EnumFlow) CellAt(addr ssa.Value, i ssa.Instruction) (Set, bool) {
 	env, ok := ef.envBefore(i)
@@ -675,6 +771,9 @@ func (ef *EnumFlow) CellAt(addr ssa.Value, i ssa.Instruction) (Set, bool) {
 
 // EdgeFeasible reports whether the CFG edge b->b.Succs[k] is feasible.
 func (ef *EnumFlow) EdgeFeasible(b *ssa.BasicBlock, k int) bool {
+	if ef.Unknown || !ef.Done {
+		return true
+	}
 	in, ok := ef.in[b]
 	if !ok {
 		return false
